@@ -39,7 +39,7 @@ def h_alpha(func="cmap_confined", maxlen=4, timeout=200, part=None, alpha=None, 
         n = ex.choice(maxlen + 1, "len")
         A = alpha or mod.ALPHA
         name = "".join(A[ex.choice(len(A), "c%d" % i)] for i in range(n))
-        if func in ("cmap_confined", "cmap_confined_sibling"):
+        if func in ("cmap_confined", "cmap_confined_sibling", "cmap_confined_unset"):
             args = (name, ex.choice(2, "e1") == 1, ex.choice(2, "e2") == 1)
         else:
             args = (name, ex.choice(3, "taken"), ex.choice(2, "ext"))
@@ -51,10 +51,10 @@ def h_alpha(func="cmap_confined", maxlen=4, timeout=200, part=None, alpha=None, 
 
     def conc(m, info):
         return {"function": info["function"], "args": info["args"], "kwargs": {}}
-    fns = {"cmap_confined": [cm.CMapDB._load_data], "cmap_confined_sibling": [cm.CMapDB._load_data], "image_name_confined": [im.ImageWriter._create_unique_image_name]}[func]
-    return core.run_symx({"cmap_confined": "H1_cmap", "cmap_confined_sibling": "H1_cmap", "image_name_confined": "H2_imagename"}[func], fn, fns,
+    fns = {"cmap_confined": [cm.CMapDB._load_data], "cmap_confined_sibling": [cm.CMapDB._load_data], "cmap_confined_unset": [cm.CMapDB._load_data], "image_name_confined": [im.ImageWriter._create_unique_image_name]}[func]
+    return core.run_symx({"cmap_confined": "H1_cmap", "cmap_confined_sibling": "H1_cmap", "cmap_confined_unset": "H1_cmap", "image_name_confined": "H2_imagename"}[func], fn, fns,
                          {"name": "every string of length <= %d over the alphabet %r" % (maxlen, alpha or mod.ALPHA), "exists": "symbolic answers",
-                          "CMAP_PATH": "/e/a/ (sibling directories spelled by the alphabet)" if func == "cmap_confined_sibling" else "default"}, timeout, concretize=conc, part=part)
+                          "CMAP_PATH": "/e/a/ (sibling directories spelled by the alphabet)" if func == "cmap_confined_sibling" else ("not set" if func == "cmap_confined_unset" else "default")}, timeout, concretize=conc, part=part)
 
 
 LONG_LENS = [200, 240, 246, 247, 250, 251, 252, 254, 255, 256, 260, 300, 1000, 5000]
@@ -92,7 +92,7 @@ def h_long(timeout=200, part=None, **kw):
 # ------------------------------------------------------------------------------------------ H3 end to end: file system effects and audit events of an export
 E2E_NAMES = ["Im0", "../up", "/abs", "a/b", "..", "x\0y", "\\\\srv\\share", "C:\\x", "seed.txt", "L" * 300]
 E2E_KINDS = ["gray8", "rgb8", "bit1", "gray4", "cmyk8", "dct", "flate-gray8", "ahx-cmyk", "indexed", "inline"]
-E2E_ENCODINGS = [None, "../../../secret", "/etc/passwd", "H\0x", "Identity-H/../x"]
+E2E_ENCODINGS = [None, "../../../secret", "/etc/passwd", "H\0x", "Identity-H/../x", "Report-H"]
 _AUDIT = {"on": False, "events": []}
 
 
@@ -185,7 +185,7 @@ def _e2e_check(sel):
         cwd = os.path.join(base, "cwd")
         os.makedirs(outdir)
         os.makedirs(cwd)
-        seeds = ["Im0.bmp", "Im0.jpg", "Im0.8.2x2.img", "Im0.4.2x2.img", "up.bmp", "up.jpg", "abs.bmp", "b.bmp", "x.bmp", "seed.txt", "seed.txt.bmp", "image.bmp", "y.bmp", "xy.bmp", "share.bmp", "secret", "x"]
+        seeds = ["Im0.bmp", "Im0.jpg", "Im0.8.2x2.img", "Im0.4.2x2.img", "up.bmp", "up.jpg", "abs.bmp", "b.bmp", "x.bmp", "seed.txt", "seed.txt.bmp", "image.bmp", "y.bmp", "xy.bmp", "share.bmp", "secret", "x", "Report-H.pickle.gz", "secret.pickle.gz", "to-unicode-Adobe-..", "to-unicode-Adobe-x.pickle.gz"]
         for d in (parent, outdir, cwd, base):
             for f in seeds:
                 open(os.path.join(d, f), "wb").write(b"precious " + f.encode())
@@ -281,5 +281,6 @@ def jobs(tier):
     J.append(Job("H2_imagename:long", "h_long", {}, 300, "H2_imagename"))
     for k in range(4):
         J.append(Job("H3_export:%d" % k, "h3_export", {"nimg": 1 if tier == "quick" else 2, "part": [k, 4, 4]}, 300 if tier == "quick" else 1800, "H3_export"))
+    J.append(Job("H1_cmap:unset", "h_alpha", {"func": "cmap_confined_unset", "maxlen": 3}, 300, "H1_cmap"))
     J.append(Job("H1_cmap:sibling", "h_alpha", {"func": "cmap_confined_sibling", "maxlen": 7 if tier == "quick" else 9, "alpha": "./a"}, 300 if tier == "quick" else 1800, "H1_cmap"))
     return J
